@@ -66,6 +66,15 @@ type WithSliceID struct{ ID []int }
 type WithMapSlug struct{ Slug map[string]int }
 type WithAnyID struct{ ID interface{} }
 
+// ValStringer implements fmt.Stringer with a value receiver (a nil *ValStringer panics in Go when printed naively).
+type ValStringer struct{ S string }
+
+func (v ValStringer) String() string { return v.S }
+
+// WithNilEmbedded promotes X through an embedded pointer that is nil.
+type Embedded struct{ X string }
+type WithNilEmbedded struct{ *Embedded }
+
 type countIter struct{ n, max int }
 
 func (c *countIter) Next() interface{} {
